@@ -3,9 +3,10 @@
 LogP == {"es_bulk", "es_doc", "splunk_hec", "loki_json", "loki_pb", "otlp_logs", "otlp_traces"}
 MetP == {"otsdb", "prom_rw", "otlp_metrics"}
 KindsAll == {"str", "unicode", "nansub", "int", "neg", "float", "bool", "bigint", "nested", "array"}
-MetricKindsAll == {"m_int", "m_frac", "m_neg", "m_big", "m_small", "m_tagnan", "m_tagunicode"}
+MetricKindsAll == {"m_int", "m_frac", "m_neg", "m_big", "m_small", "m_tagnan", "m_tagunicode", "m_tagescapes"}
 LevelsAll == {"record", "resource", "scope"}
-UnitsAll == {"s", "s_frac", "ms", "ns", "ns_str", "rfc3339"}
+\* the same instant in every encoding a protocol accepts: numbers and their quoted (string) forms
+UnitsAll == {"s", "s_frac", "ms", "ns", "s_str", "s_frac_str", "ms_str", "ns_str", "rfc3339"}
 ShapesAll == {"single", "same_scope", "sibling_scopes", "sibling_resources"}
 StringKinds == {"str", "unicode", "nansub"}
 Acc(p, cls, f) ==
@@ -22,13 +23,13 @@ Acc(p, cls, f) ==
            [] f = "sibling_resources" -> p \in {"otlp_logs", "otlp_traces", "otlp_metrics"}
            [] OTHER -> FALSE
     [] cls = "time" ->
-         CASE p \in {"es_bulk", "es_doc"} -> f \in {"none", "s", "ms", "rfc3339"}
-           [] p = "splunk_hec" -> f \in {"none", "s", "s_frac"}
+         CASE p \in {"es_bulk", "es_doc"} -> f \in {"none", "s", "ms", "s_str", "ms_str", "rfc3339"}   \* epoch_second / epoch_millis also as strings
+           [] p = "splunk_hec" -> f \in {"none", "s", "s_frac", "s_str", "s_frac_str"}            \* HEC: "time" may be quoted
            [] p = "loki_json" -> f = "ns_str"
            [] p = "loki_pb" -> f = "ns"
            [] p = "otlp_logs" -> f \in {"none", "ns"}
            [] p = "otlp_traces" -> f = "ns"
-           [] p = "otsdb" -> f \in {"s", "ms"}
+           [] p = "otsdb" -> f \in {"s", "ms", "s_str", "ms_str"}
            [] p = "prom_rw" -> f = "ms"
            [] p = "otlp_metrics" -> f = "ns"
     [] OTHER -> FALSE
